@@ -56,8 +56,8 @@ def gen_cases(rng, names, stable, n_single, n_mixed, cls, cum_every=3, tmax=30, 
         n = rng.choice(radio)
         T = float(hl[n][0]) * secs[str(hl[n][1])]
         amt = 10 ** rng.uniform(10, 30)
-        target = 10 ** rng.uniform(-305, math.log10(amt))
-        t = T * math.log2(amt / target)
+        texp = rng.uniform(-305, math.log10(amt))
+        t = T * (math.log10(amt) - texp) * math.log2(10.0)
         cases.append({"cls": cls, "contents": {n: float(amt).hex()}, "unit": "num", "t": float(t).hex(), "tunit": "s", "kind": "tail"})
     # history cases: earlier calculations and in-place changes on the same object before the measured decay
     nhist = max(2, len(cases) // 8)
